@@ -60,6 +60,28 @@ func (f *Flow) Paths(v ssa.Value) []string {
 	return res
 }
 
+// nonNilBase drops the nil alternative of a pointer that is dereferenced: selecting a field or an element
+// through a nil pointer panics, so nil is not a source of the selected value (e.g. "sh" after an inlined
+// "sh, err := helper()" whose error path returns nil, err).
+func nonNilBase(base []string) []string {
+	n := 0
+	for _, b := range base {
+		if b != "const:nil" {
+			n++
+		}
+	}
+	if n == 0 || n == len(base) {
+		return base
+	}
+	out := make([]string, 0, n)
+	for _, b := range base {
+		if b != "const:nil" {
+			out = append(out, b)
+		}
+	}
+	return out
+}
+
 func suffixAll(base []string, suf string) []string {
 	out := make([]string, 0, len(base))
 	for _, b := range base {
@@ -135,12 +157,12 @@ func (f *Flow) paths(v ssa.Value) []string {
 		return []string{"builtin:" + x.Name()}
 	case *ssa.FieldAddr:
 		fv := FieldOf(x)
-		return suffixAll(f.Paths(x.X), "."+fv.Name())
+		return suffixAll(nonNilBase(f.Paths(x.X)), "."+fv.Name())
 	case *ssa.Field:
 		fv := FieldOf(x)
 		return suffixAll(f.Paths(x.X), "."+fv.Name())
 	case *ssa.IndexAddr:
-		return suffixAll(f.Paths(x.X), "["+f.idx(x.Index)+"]")
+		return suffixAll(nonNilBase(f.Paths(x.X)), "["+f.idx(x.Index)+"]")
 	case *ssa.Index:
 		return suffixAll(f.Paths(x.X), "["+f.idx(x.Index)+"]")
 	case *ssa.Lookup:
